@@ -15,6 +15,10 @@ def main():
     if a.replay:
         sys.exit(mod.replay(a.replay))
     vlib.ensure_static()
+    import fcntl
+    vlib.BUILD.mkdir(exist_ok=True)
+    lock = open(vlib.BUILD / f".lock_{a.pid}", "w")
+    fcntl.flock(lock, fcntl.LOCK_EX)   # runs of the same property share build/<ID>: serialise them
     ck = vlib.Check(a.pid, a.tier, seed)
     try:
         mod.run(ck)
